@@ -112,8 +112,14 @@ def make_objects(M, desc, param_override=None, node_names=None):
         for o in desc["origins"]:
             if o.get("C") is not None and (o["id"], "C") not in po and float(o["C"]).is_integer():
                 po[(o["id"], "C")] = int(o["C"])
+    node_cls = M.Node
+    if FORMS["rng"] is not None and FORMS["rng"].random() < 0.12:
+        from vf import userkinds as UK
+
+        node_cls = UK.Junction  # user-defined nodes that happen to be falsy
     nodes = {
-        n: callform(M.Node, ORDER["named"], {"name": (node_names or {}).get(n, n)}) for n in desc["nodes"]
+        n: callform((node_cls if (node_cls is M.Node or FORMS["rng"].random() < 0.5) else M.Node), ORDER["named"],
+                    {"name": (node_names or {}).get(n, n)}) for n in desc["nodes"]
     }
     links = {}
     for l in desc["links"]:
